@@ -117,7 +117,15 @@ def dec_event(args):
             nxt = s.tell() if raw == b[:s.tell()] else -2
             return {"op": "dec", "fn": "load", "b": list(b), "pos": 0, "res": res, "val": av.mag(val) if val >= 0 else [], "next": nxt, "exc": "", "stall": at, "whole": list(b)}
         return {"op": "dec", "fn": "load", "b": list(b), "pos": 0, "res": res, "val": [], "next": -1, "exc": r, "stall": at, "whole": list(b)}
-    if fn == "decode":
+    if fn == "decode_ba":
+        # the caller's receive buffer: one bytearray, decoded from, refilled in place, decoded from again (the second answer is judged)
+        buf = bytearray(b"\xac\x02\x07")
+        _exc(bp.decode_varint, buf, 0)
+        buf[:] = b
+        res, r = _exc(bp.decode_varint, buf, pos)
+        val, nxt = r if res == "ok" else (0, -1)
+        fn = "decode"
+    elif fn == "decode":
         res, r = _exc(bp.decode_varint, b, pos)
         val, nxt = r if res == "ok" else (0, -1)
     else:
@@ -296,6 +304,7 @@ def run(ctx):
         decs.append((b, rnd.randint(0, max(0, ln - 1)) if rnd.random() < .3 else 0, rnd.choice(["decode", "load"])))
     # every load case again on a small-buffered reader and on a read()-only stream; long runs of varints back to back
     decs += [(b, pos, "load_buf") for b, pos, fn in decs if fn == "load"] + [(b, pos, "load_min") for b, pos, fn in decs if fn == "load" and len(b) % 3 == 0]
+    decs += [(b, pos, "decode_ba") for b, pos, fn in decs if fn == "decode" and (len(b) + (b[0] if b else 0)) % 5 == 0]
     # ... and on a non-blocking source that has no data yet at one point inside (or right before) the varint
     decs += [(b, 0, "load_stall%d" % at) for b, pos, fn in decs if fn == "load" and pos == 0 and 0 < len(b) <= 11 and (b[0] + len(b)) % 4 == 0
              for at in range(len(b))]
